@@ -290,6 +290,28 @@ func dump(tag string, rs []*route.Route) []string {
 	return out
 }
 
+func hasDirtyPrefix(u *packet.BGPUpdate) bool {
+	dirty := false
+	walk := func(n *packet.NLRI) {
+		for ; n != nil; n = n.Next {
+			if n.Prefix != nil && !n.Prefix.Valid() {
+				dirty = true
+			}
+		}
+	}
+	walk(u.WithdrawnRoutes)
+	walk(u.NLRI)
+	for pa := u.PathAttributes; pa != nil; pa = pa.Next {
+		switch v := pa.Value.(type) {
+		case packet.MultiProtocolReachNLRI:
+			walk(v.NLRI)
+		case packet.MultiProtocolUnreachNLRI:
+			walk(v.NLRI)
+		}
+	}
+	return dirty
+}
+
 // install: what the two Adj-RIB-Ins hold after the established session processed the decoded UPDATE
 func install(u *packet.BGPUpdate, k int) (string, interface{}) {
 	var all []string
@@ -355,14 +377,23 @@ func do(id string, k int, m []byte) {
 	obs, msg, _ := bgpx.DecodeObs(pad4096(m), k)
 	inst := "-"
 	var pv interface{}
+	dirty := false
 	if msg != nil {
 		if u, ok := msg.Body.(*packet.BGPUpdate); ok {
 			inst, pv = install(u, k)
+			dirty = hasDirtyPrefix(u)
 		}
 	}
 	clause := malformed(m, k)
 	nt := clause != "" || inst != "-"
-	tr.Case(id, nt, bgpx.FmtInput(k, m), obs+" | "+inst)
+	if dirty && inst != "PANIC" {
+		// IPv4 NLRI with host bits set are stored as they are and confuse the routing table below the Adj-RIB-In
+		// (not a C19 matter): the content of the tables is not compared for such messages, the oracle still applies
+		tr.Case(id, nt, bgpx.FmtInput(k, m), obs+" | DIRTY")
+		tr.Count("dirty_prefix_install_not_compared")
+	} else {
+		tr.Case(id, nt, bgpx.FmtInput(k, m), obs+" | "+inst)
+	}
 	if clause == "" {
 		tr.Count("wellformed")
 		if inst != "-" {
